@@ -202,4 +202,38 @@ theorem irrepCS_eq_symD (sq : ℕ → R) (j2 : ℕ) (cb sb : R) (p m : Cx R) (hp
   rw [hdiv, pow_add, pow_add]
   ring
 
+/-! ### unitarity for `j2 ≤ 3` -/
+
+/-- conjugate transpose of a matrix over `Cx R` -/
+def conjTn {n : ℕ} (M : Matrix (Fin n) (Fin n) (Cx R)) : Matrix (Fin n) (Fin n) (Cx R) := fun i k => (M k i).conj
+
+theorem symM_conjT_one (sq : ℕ → R) (h1 : sq 1 = 1) (a b c d : Cx R) :
+    conjTn (symM sq 1 a b c d) = symM sq 1 a.conj c.conj b.conj d.conj := by
+  rw [symM_one sq h1, symM_one sq h1]
+  apply Matrix.ext; intro i k
+  fin_cases i <;> fin_cases k <;> rfl
+
+theorem symM_conjT_two (sq : ℕ → R) (h1 : sq 1 = 1) (h4 : sq 4 = 2) (a b c d : Cx R) :
+    conjTn (symM sq 2 a b c d) = symM sq 2 a.conj c.conj b.conj d.conj := by
+  rw [symM_two sq h1 h4, symM_two sq h1 h4]
+  apply Matrix.ext; intro i k
+  fin_cases i <;> fin_cases k <;> simp [conjTn] <;>
+    (ext <;> simp only [Cx.mul_re, Cx.mul_im, Cx.add_re, Cx.add_im, Cx.conj_re, Cx.conj_im, Cx.ofReal_re, Cx.ofReal_im] <;> ring)
+
+theorem symM_conjT_three (sq : ℕ → R) (h4 : sq 4 = 2) (h36 : sq 36 = 6) (h12 : sq 12 = 2 * sq 3) (a b c d : Cx R) :
+    conjTn (symM sq 3 a b c d) = symM sq 3 a.conj c.conj b.conj d.conj := by
+  rw [symM_three sq h4 h36 h12, symM_three sq h4 h36 h12]
+  apply Matrix.ext; intro i k
+  fin_cases i <;> fin_cases k <;> simp [conjTn] <;>
+    (ext <;> simp only [Cx.mul_re, Cx.mul_im, Cx.add_re, Cx.add_im, Cx.conj_re, Cx.conj_im, Cx.ofReal_re, Cx.ofReal_im] <;> ring)
+
+theorem symM_id_one (sq : ℕ → R) (h1 : sq 1 = 1) : symM sq 1 1 0 0 1 = 1 := by
+  rw [symM_one sq h1]; apply Matrix.ext; intro i k; fin_cases i <;> fin_cases k <;> rfl
+
+theorem symM_id_two (sq : ℕ → R) (h1 : sq 1 = 1) (h4 : sq 4 = 2) : symM sq 2 1 0 0 1 = 1 := by
+  rw [symM_two sq h1 h4]; apply Matrix.ext; intro i k; fin_cases i <;> fin_cases k <;> simp
+
+theorem symM_id_three (sq : ℕ → R) (h4 : sq 4 = 2) (h36 : sq 36 = 6) (h12 : sq 12 = 2 * sq 3) : symM sq 3 1 0 0 1 = 1 := by
+  rw [symM_three sq h4 h36 h12]; apply Matrix.ext; intro i k; fin_cases i <;> fin_cases k <;> simp
+
 end Numqi.Lie
